@@ -349,10 +349,11 @@ func (cw *codeWorld) concurrentRedeem(step int, ch *kernel.Chooser) string {
 	owner := ic.ar.ClientID
 	hadSuccess := ic.successes > 0
 	sched := kernel.NewSched(w.Tape, fmt.Sprintf("pair:%d", step), 300)
-	w.Store.OnCall = func(ctx context.Context, method string) {
+	w.Store.OnCall = func(ctx context.Context, method string) string {
 		if name, ok := ctx.Value(pairTaskKey{}).(string); ok {
 			sched.Park(name, "store."+method, nil)
 		}
+		return ""
 	}
 	defer func() { w.Store.OnCall = nil }()
 	type side struct {
